@@ -33,20 +33,43 @@ fn mapping<'a>(cfg: &'a Cfg, key: &str) -> Option<&'a String> {
     cfg.type_mappings.iter().find(|(k, _)| k == key).map(|(_, v)| v)
 }
 
-/// typeshare's own spelling of a special type, used as the key of container type mappings ("Vec<u8>")
+/// typeshare's own spelling of a special type (`Display for SpecialRustType`), used as the key of type mappings in
+/// the backends that look special types up (TypeScript, Go, Python): "Vec<u8>", "[u8]" (array of any length),
+/// "&[u8]", "HashMap<String,u32>", "Option<Vec>" (sic: the id of the argument), and the primitives' own names.
 fn mapping_key(ty: &Ty) -> Option<String> {
     match ty {
-        Ty::Vec(t) => Some(format!("Vec<{}>", mapping_key(t).or_else(|| leaf_key(t))?)),
+        Ty::Vec(t) => Some(format!("Vec<{}>", display(t)?)),
+        Ty::Array(t, _) => Some(format!("[{}]", display(t)?)),
+        Ty::Slice(t) => Some(format!("&[{}]", display(t)?)),
+        Ty::Map(k, v) => Some(format!("HashMap<{},{}>", display(k)?, display(v)?)),
+        Ty::Option(t) => Some(format!("Option<{}>", id_of(t)?)),
+        Ty::Prim("&str") => Some("String".into()),
+        Ty::Prim(p) => Some(p.to_string()),
         _ => None,
     }
 }
-fn leaf_key(ty: &Ty) -> Option<String> {
+/// `Display for RustType`
+fn display(ty: &Ty) -> Option<String> {
     match ty {
-        Ty::Prim("&str") => Some("String".into()),
-        Ty::Prim(p) => Some(p.to_string()),
         Ty::User(n) | Ty::Param(n) => Some(n.clone()),
-        _ => None,
+        Ty::Generic(n, args) if args.is_empty() => Some(n.clone()),
+        Ty::Generic(n, args) => Some(format!("{n}<{}>", args.iter().map(display).collect::<Option<Vec<_>>>()?.join(", "))),
+        other => mapping_key(other),
     }
+}
+/// `RustType::id`
+fn id_of(ty: &Ty) -> Option<String> {
+    Some(match ty {
+        Ty::User(n) | Ty::Param(n) | Ty::Generic(n, _) => n.clone(),
+        Ty::Vec(_) => "Vec".into(),
+        Ty::Array(..) => "[]".into(),
+        Ty::Slice(_) => "&[]".into(),
+        Ty::Option(_) => "Option".into(),
+        Ty::Map(..) => "HashMap".into(),
+        Ty::Prim("&str") => "String".into(),
+        Ty::Prim(p) => p.to_string(),
+        _ => return None,
+    })
 }
 
 pub fn expected(ctx: &Ctx, ty: &Ty) -> Exp {
@@ -88,6 +111,8 @@ fn expected_erased(ctx: &Ctx, ty: &Ty) -> Exp {
         }
         Ty::Vec(t) | Ty::Slice(t) => Exp::Seq(Box::new(expected_erased(ctx, t))),
         Ty::Array(t, n) => Exp::Array(Box::new(expected_erased(ctx, t)), *n),
+        // Go with `no_pointer_slice`: an optional Vec is written without the pointer (a nil slice is the absent value)
+        Ty::Option(t) if ctx.lang == Lang::Go && ctx.cfg.go_no_pointer_slice && matches!(**t, Ty::Vec(_)) => expected_erased(ctx, t),
         Ty::Option(t) => Exp::Opt(Box::new(expected_erased(ctx, t))),
         Ty::Map(k, v) => Exp::Map(Box::new(expected_erased(ctx, k)), Box::new(expected_erased(ctx, v))),
         Ty::Ptr(_, t) | Ty::Ref(t) | Ty::Path(_, t) => expected_erased(ctx, t),
